@@ -27,6 +27,12 @@ theorem edit_history_wf {E : Env V J} (hE : EnvOK E) (h : Hdr) (ops : List (Op J
     WF E (run E (Graph.init h) ops) :=
   run_wf hE ops (init_wf h)
 
+/-- the same from any well-formed start graph (an application that defines its graph in code — `App.Files` —
+    starts from that graph instead of the empty one; per-node defaults are then arbitrary) -/
+theorem edit_history_wf_from {E : Env V J} (hE : EnvOK E) {g : Graph V} (hw : WF E g) (ops : List (Op J)) :
+    WF E (run E g ops) :=
+  run_wf hE ops hw
+
 /-! ### save → load -/
 
 /-- For every well-formed graph — in particular (`edit_history_wf`) every graph reachable by editing —,
